@@ -1,8 +1,98 @@
-/- Driver handlers for area `redact` (stub: replace `handle`). -/
+/- Driver handlers for area `redact` (C05). -/
 import VDriver.Util
+import VModel.Redact
+import VModel.RedactSpec
+import VDriver.Event
 namespace V.Driver.RedactOps
-open V V.Driver
+open V V.Json V.GoJson V.Driver V.Redact
 
-def handle (_op : String) (_args : Array String) : Option String := none
+/-- outcome of a redaction: canonical JSON of the result, `err`, panic or skip -/
+def showRedact : Except Err JVal → String
+  | .ok r => "ok:" ++ hex (encodeCanon r)
+  | .error (.other w) => if w.startsWith "unmodelled" then "skip:" ++ w else "err"
+  | .error .badJSON => "err"
+  | .error (.panic s) => "panic:" ++ s
+
+/-- Nested duplicate keys inside a value that is passed through verbatim make the harness's
+    CanonicalJSON order unspecified (C01): such inputs are skipped. -/
+def nestedDupFree (kvs : List (Bytes × JVal)) : Bool :=
+  kvs.all (fun kv =>
+    if matchesField kv.1 b!"content" then
+      match kv.2 with
+      | .obj m => m.all (fun x => x.2.noDupKeys)
+      | v => v.noDupKeys
+    else kv.2.noDupKeys)
+
+/-- The specification stream: what C05 demands for this event, or why the event is outside
+    the property's quantifier. -/
+def specRedact (ver : String) (j : JVal) : String :=
+  match RedactSpec.specFor ver with
+  | none => "unspecified:unknown version"
+  | some a =>
+    match j with
+    | .obj kvs =>
+      if !noDupIn (kvs.map (·.1)) then "unspecified:duplicate top-level key"
+      else if kvs.any (fun kv => a.top.any (fun t => foldBytes (RedactSpec.sb t) == foldBytes kv.1 && RedactSpec.sb t != kv.1)) then
+        "unspecified:case variant of a protected key"
+      else match lookupExact kvs b!"type", lookupExact kvs b!"content" with
+        | some (.str ty), some (.obj m) =>
+          if !utf8Valid ty then "unspecified:type not UTF-8"
+          else if !ifaceOk (.obj m) then "unspecified:content outside the IntSafe / UTF-8 / no-duplicate domain"
+          else "ok:" ++ hex (encodeCanon (RedactSpec.redact a j))
+        | _, _ => "unspecified:type not a string or content not an object"
+    | _ => "unspecified:not an object"
+
+/-- The shape tag the harness attaches to every `json` op (recomputed here; a wrong tag is answered
+    `bad-tag`): `member-tpi-signed` = type m.room.member whose content has an object
+    `third_party_invite` with a `signed` member — the shape of the known v11 deviation. -/
+def shapeTag (j : JVal) : String :=
+  match j with
+  | .obj kvs =>
+    match lookupExact kvs b!"type", lookupExact kvs b!"content" with
+    | some (.str ty), some (.obj m) =>
+      if ty == b!"m.room.member" then
+        match lookupExact m b!"third_party_invite" with
+        | some (.obj t) => if (lookupExact t b!"signed").isSome then "member-tpi-signed" else "-"
+        | _ => "-"
+      else "-"
+    | _, _ => "-"
+  | _ => "-"
+
+/-- ops:
+    json <ver> <tag> <hex text>   -> RedactEventJSON, canonicalised : ok:<hex> | err | panic   (+ spec)
+    pdu <ver> <hex id>:<hex json> -> PDU.Redact() twice on a trusted event
+-/
+def handle (op : String) (args : Array String) : Option String :=
+  match op, args.toList with
+  | "json", [vers, tag, h] =>
+    match some (strBytes vers), unhex h with
+    | some verb, some t =>
+      match parse t with
+      | none => some "err\tunspecified:not JSON"
+      | some p =>
+        if !p.wellFormed then some "skip:ill-formed unicode (canonical form not specified, C01)" else
+        let j := p.toJVal
+        if shapeTag j != tag then some "bad-tag" else
+        let dupFree := match j with
+          | .obj kvs => nestedDupFree kvs
+          | v => v.noDupKeys
+        if !dupFree then some "skip:nested duplicate keys (order after sorting unspecified, C01)" else
+        some (showRedact (redactJSON verb j) ++ "\t" ++ specRedact (bytesStr verb) j)
+    | _, _ => some "bad-op"
+  | "pdu", [vers, ev] =>
+    match some (strBytes vers), ev.splitOn ":" with
+    | some verb, [idh, jsh] =>
+      match unhex idh, unhex jsh with
+      | some id, some js => some (EventOps.showRedactPDU verb id js)
+      | _, _ => some "bad-op"
+    | _, _ => some "bad-op"
+  | "pdu_props", [vers, ev, _name, _kid, _pub] =>
+    match some (strBytes vers), ev.splitOn ":" with
+    | some verb, [idh, jsh] =>
+      match unhex idh, unhex jsh with
+      | some id, some js => some (EventOps.showPDUProps verb id js)
+      | _, _ => some "bad-op"
+    | _, _ => some "bad-op"
+  | _, _ => none
 
 end V.Driver.RedactOps
